@@ -268,7 +268,8 @@ func (BSCScenario) Name() string { return "bsc" }
 
 var bscMutations = []string{"none", "none", "none", "none", "non_member", "recent_signer", "wrong_coinbase", "swap_difficulty", "zero_difficulty",
 	"extra_on_non_epoch", "epoch_bad_len", "short_extra", "parent_hash", "number_gap", "number_same", "gas_limit_high", "gas_limit_low",
-	"gas_used_over", "mix_digest", "uncle_hash", "root_post", "forged_epoch_list", "out_of_turn_honest"}
+	"gas_used_over", "mix_digest", "uncle_hash", "root_post", "forged_epoch_list", "out_of_turn_honest",
+	"non_epoch_surplus_bytes", "seal_bad_recovery_id"}
 
 func (BSCScenario) Generate(rng *rand.Rand, focus, tier string) kernel.Plan {
 	cfg := map[string]int64{
@@ -692,6 +693,19 @@ func (w *bscWorld) opHeader(op kernel.Op) {
 			h.Extra = append(append(append([]byte{}, h.Extra[:len(h.Extra)-extraSeal]...), 1, 2, 3), make([]byte, extraSeal)...)
 			w.resign(h, signer)
 		}
+	case "non_epoch_surplus_bytes":
+		// a few junk bytes (less than one address) between vanity and seal of an ordinary block, properly sealed
+		if number%base.epoch != 0 {
+			junk := make([]byte, 1+r.Intn(19))
+			for i := range junk {
+				junk[i] = byte(7 + i)
+			}
+			h.Extra = append(append(append([]byte{}, h.Extra[:len(h.Extra)-extraSeal]...), junk...), make([]byte, extraSeal)...)
+			w.resign(h, signer)
+		}
+	case "seal_bad_recovery_id":
+		// the seal's recovery id is out of range: the signer cannot be recovered at all
+		h.Extra[len(h.Extra)-1] = byte(4 + r.Intn(200))
 	case "short_extra":
 		h.Extra = h.Extra[len(h.Extra)-extraSeal-r.Intn(20):]
 	case "root_post":
